@@ -145,22 +145,21 @@ Fixpoint read (fuel : nat) (st : state) (o : oid) (n : name) : res value :=
 Definition read_fuel : nat := 12.
 Definition rd (st : state) (o : oid) (n : name) : res value := read read_fuel st o n.
 
-(* ----- setattr_delegate's chain walk (ctraits.c l.2577-2649).  [origin] is the object the
-   assignment was made on: delegate_attr_name is called with it at EVERY hop (l.2602), so the
-   class-prefix rule uses the origin's class prefix even at later hops. ----- *)
-Fixpoint walk (fuel : nat) (st : state) (origin cur : oid) (d : name) (r : rule) (daname : name)
+(* ----- setattr_delegate's chain walk (ctraits.c l.2577-2660).  delegate_attr_name is called with the
+   object that owns the link being followed (l.2624, as getattr_delegate does), so the class-prefix rule
+   uses the prefix of the hop's own class at every hop. ----- *)
+Fixpoint walk (fuel : nat) (st : state) (cur : oid) (d : name) (r : rule) (daname : name)
   : res (oid * name * trait) :=
   match fuel with
   | O => Raise DelegationError                               (* delegation_recursion_error *)
   | S f =>
       match rd st cur d with
       | Ok (VObj p) =>
-          let daname' := attr_name r (c_prefix (cls_of st origin)) daname in
+          let daname' := attr_name r (c_prefix (cls_of st cur)) daname in
           match find_trait st p daname' with
           | None => Ok (p, daname', PyAttr)                  (* get_prefix_trait: HasTraits' default wildcard
-                                                                 trait accepts any attribute (only reached when the
-                                                                 origin-prefix name of l.2602 does not exist) *)
-          | Some (Deleg d' r' _) => walk f st origin p d' r' daname'
+                                                                 trait accepts any attribute *)
+          | Some (Deleg d' r' _) => walk f st p d' r' daname'
           | Some t => Ok (p, daname', t)
           end
       | Ok _ => Raise DelegationError                        (* bad_delegate_error2: no traits *)
@@ -222,7 +221,7 @@ Definition set_attr (st : state) (o : oid) (n : name) (v : value) : state * outc
   match find_trait st o n with
   | None => (st, Raised AttributeError, [])
   | Some (Deleg d r modify) =>
-      match walk 100 st o o d r n with
+      match walk 100 st o d r n with
       | Raise e => (st, Raised e, [])
       | Ok (p, dn, t) =>
           if modify then set_plain st p dn t v                 (* TRAIT_MODIFY_DELEGATE, l.2623-2626 *)
@@ -255,7 +254,7 @@ Definition set_attr (st : state) (o : oid) (n : name) (v : value) : state * outc
 Definition del_attr (st : state) (o : oid) (n : name) : state * outcome * list event :=
   match find_trait st o n with
   | Some (Deleg d r false) =>
-      match walk 100 st o o d r n with
+      match walk 100 st o d r n with
       | Raise e => (st, Raised e, [])
       | Ok (_, _, t) =>
           if listenable st o n then
@@ -275,12 +274,12 @@ Definition del_attr (st : state) (o : oid) (n : name) : state * outcome * list e
             end
           else
             (* listenable=False: the class has no __listener_traits__ entry for the name, so
-               _remove_trait_delegate_listener(name, 0) raises KeyError (l.3404) AFTER the local value
-               was deleted and the change notified *)
+               _remove_trait_delegate_listener(name, 0) has no forwarder to restore (l.3406): an
+               ordinary delete *)
             match dict_get st o n with
             | None => match t with
                       | PyAttr => (st, Raised AttributeError, [])
-                      | _ => (st, Raised KeyError, [])
+                      | _ => (st, Done, [])
                       end
             | Some old =>
                 let st1 := dict_del st o n in
@@ -289,7 +288,7 @@ Definition del_attr (st : state) (o : oid) (n : name) : state * outcome * list e
                            | _, Ok new => if value_eqb old new then [] else change_at notify_fuel st1 (o, n) new
                            | _, Raise _ => []
                            end in
-                (st1, Raised KeyError, evs)
+                (st1, Done, evs)
             end
       end
   | _ => (st, Raised OtherError, [])                           (* not part of the quantified histories *)
